@@ -354,6 +354,7 @@ def free_running_stress(run, tmp):
     reps = 12 if run.quick() else 120
     old = sys.getswitchinterval()
     warnings.simplefilter('ignore')      # (catch_warnings is not thread-safe: nested contexts in worker-heavy code restore filters at random)
+    show, warnings.showwarning = warnings.showwarning, (lambda *a, **k: None)
     with warnings.catch_warnings():
         warnings.simplefilter('ignore')
         with RasterCompare(pair.src_path, pair.ref_path) as cmp:
@@ -401,6 +402,7 @@ def free_running_stress(run, tmp):
                         break
         finally:
             sys.setswitchinterval(old)
+            warnings.showwarning = show
     run.nontrivial.add(('stress', reps))
 
 
